@@ -144,6 +144,9 @@ impl AisParser {
                 let mut data = AisRawData::default();
                 lib::std::mem::swap(&mut data, &mut self.data);
                 ais_sentence.data = data;
+                // The group has been handed out: nothing may continue it any more
+                self.message_id = None;
+                self.fragment_number = 0;
             }
             if decode {
                 let unarmored =
